@@ -1,7 +1,7 @@
 (* C07 - cell-space connections and neighbourhoods are exactly the geometry's.
    ONLY statements closed by `exact`, with Print Assumptions beneath each. *)
 From Coq Require Import ZArith List Bool PeanoNat.
-From Mesa Require Import Common.ListX Generated.Tables Model.CellGeom Proofs.CellGeomProofs.
+From Mesa Require Import Common.ListX Generated.Tables Model.CellGeom Proofs.CellGeomProofs Proofs.CellGeomBridge.
 Import ListNotations.
 Open Scope Z_scope.
 
@@ -348,4 +348,73 @@ Example C07_example_delaunay :
   delaunay_nbrs [(0, 0); (4, 0); (0, 4); (4, 4); (2, 1)] 0 = [1; 2; 4] /\
   delaunay_adj [(0, 0); (4, 0); (0, 4); (4, 4); (2, 1)] 0 3 = false /\
   net_adj [(0, 1); (2, 0)] 0 = [1; 2].
+Proof. vm_compute. repeat split; reflexivity. Qed.
+
+(* ---------------------------------------------------------------- code-level T1: theorems about the translated source *)
+(* harness/tables/cellgeom_code.py re-translates, on every run, Grid._connect_single_cell_2d / _nd (offset loop,
+   zip-add, % under torus, bounds test, connect as emission of (key, target)), the literals of the two n-D offset
+   constructions and the conditions / recursive-call arguments of Cell._neighborhood into gen_* definitions
+   (Generated.Tables); the glue that cannot be translated is checked verbatim: *)
+Theorem C07_source_skeletons :
+  gen_grid_dispatch_skeleton_ok = true /\ gen_cell_connect_skeleton_ok = true /\ gen_cell_nbhd_skeleton_ok = true.
+Proof. vm_compute. repeat split; reflexivity. Qed.
+Print Assumptions C07_source_skeletons.
+
+(* the translated helpers ARE the functions of the model (robust bridge: both sides case-split, lia) *)
+Theorem C07_source_connect_is_model : forall torus h w i j offsets dims offs c,
+  conns_2d torus [h; w] offsets [i; j] = map conv2 (gen_connect_2d torus h w i j offsets) /\
+  conns_nd torus dims offs c = gen_connect_nd torus dims c offs.
+Proof. intros. split; [apply connect_2d_bridge|apply connect_nd_bridge]. Qed.
+Print Assumptions C07_source_connect_is_model.
+
+(* the n-D offset lists built from the literals found in the source are the norm-1 offsets *)
+Theorem C07_source_offsets_nd : forall n d,
+  (In d (moore_offsets_src n) <-> length d = n /\ norm_inf d = 1) /\
+  (In d (vn_offsets_src n) <-> length d = n /\ norm_1 d = 1).
+Proof.
+  intros n d. split.
+  - rewrite moore_src_In by (vm_compute; reflexivity). apply moore_offsets_spec.
+  - rewrite vn_src_In by (vm_compute; reflexivity). apply vn_offsets_spec.
+Qed.
+Print Assumptions C07_source_offsets_nd.
+
+(* THE CONNECTION STATEMENT about the translated code: n-D path ... *)
+Theorem C07_conn_spec_nd_of_source : forall (moore torus : bool) dims c d c',
+  In (d, c') (gen_connect_nd torus dims c
+                (if moore then moore_offsets_src (length dims) else vn_offsets_src (length dims))) <->
+  length d = length dims /\ (if moore then norm_inf d else norm_1 d) = 1 /\
+  c' = (if torus then wrap dims (vadd c d) else vadd c d) /\ in_bounds dims c' = true.
+Proof. apply conn_spec_nd_of_source; vm_compute; reflexivity. Qed.
+Print Assumptions C07_conn_spec_nd_of_source.
+
+(* ... and 2-D path (regenerated tables through the translated 2-D helper) *)
+Theorem C07_conn_spec_2d_of_source : forall (moore torus : bool) h w i j a b x y,
+  In ((a, b), (x, y)) (gen_connect_2d torus h w i j (if moore then gen_moore_offsets_2d else gen_vn_offsets_2d)) <->
+  (if moore then Z.max (Z.abs a) (Z.abs b) else Z.abs a + Z.abs b) = 1 /\
+  [x; y] = (if torus then wrap [h; w] (vadd [i; j] [a; b]) else vadd [i; j] [a; b]) /\
+  in_bounds [h; w] [x; y] = true.
+Proof. apply conn_spec_2d_of_source. vm_compute. reflexivity. Qed.
+Print Assumptions C07_conn_spec_2d_of_source.
+
+(* Cell._neighborhood: the statement skeleton of the source with the TRANSLATED conditions (radius < 1, radius == 1,
+   include_center) and recursive-call arguments (radius - 1, include_center=True), recursing on the integer radius,
+   is the model's recursion; an invalid radius raises *)
+Theorem C07_source_nbhd_is_model : forall conn n ic c fuel r,
+  src_nbhd conn (S n) (Z.of_nat n + 1) ic c = Some (nbhd conn n ic c) /\
+  (r < 1 -> src_nbhd conn fuel r ic c = None).
+Proof. intros. split; [apply src_nbhd_model|apply src_nbhd_invalid]. Qed.
+Print Assumptions C07_source_nbhd_is_model.
+
+(* ... so the neighbourhood theorem holds of the translated source itself *)
+Theorem C07_nbhd_is_ball_of_source : forall conn r ic c, 1 <= r ->
+  exists l, src_nbhd conn (Z.to_nat r) r ic c = Some l /\ NoDup l /\
+    forall d, In d l <-> (d <> c /\ within conn (Z.to_nat r) c d) \/ (ic = true /\ d = c).
+Proof. exact nbhd_is_ball_of_source. Qed.
+Print Assumptions C07_nbhd_is_ball_of_source.
+
+Example C07_example_source :
+  gen_connect_2d true 1 3 0 0 gen_vn_offsets_2d = [((-1, 0), (0, 0)); ((0, -1), (0, 2)); ((0, 1), (0, 1)); ((1, 0), (0, 0))] /\
+  gen_connect_nd false [2; 2; 2] [0; 1; 1] (vn_offsets_src 3) = [([1; 0; 0], [1; 1; 1]); ([0; -1; 0], [0; 0; 1]); ([0; 0; -1], [0; 1; 0])] /\
+  src_nbhd (fun _ => [0]) 2 2 false 0 = Some [] /\ src_nbhd (fun _ => []) 3 3 true 0 = Some [0] /\
+  src_nbhd (fun _ => [0]) 5 0 true 0 = None.
 Proof. vm_compute. repeat split; reflexivity. Qed.
